@@ -124,6 +124,13 @@ type coordState struct {
 func (c *coordState) take() (int, int, bool) {
 	c.mu.Lock()
 	defer c.mu.Unlock()
+	// a confirmed hang or worker death that counts as a violation ends the search: every further run of the same
+	// kind would cost three fresh-process confirmations with growing wall budgets
+	for _, rf := range c.extra {
+		if rf.Kind == "hang" || rf.Kind == "fatal" {
+			return 0, 0, false
+		}
+	}
 	if len(c.redo) > 0 {
 		r := c.redo[0]
 		c.redo = c.redo[1:]
@@ -536,7 +543,9 @@ func (cs *coordState) merge(b *wireBatch) {
 // Returns how many of the attempts exceeded their budget / died, and the last stderr.
 func confirm(p *Prop, seed uint64, idx int, budget time.Duration) (hung int, died int, lastErr string) {
 	for i := 0; i < 3; i++ {
-		budget *= 2
+		if i > 0 {
+			budget *= 2
+		}
 		cmd := workerCmd(p, "runidx", p.ID, strconv.FormatUint(seed, 10), strconv.Itoa(idx))
 		var eb bytes.Buffer
 		cmd.Stderr = &eb
@@ -580,7 +589,7 @@ func handleHang(cs *coordState, p *Prop, seed uint64, w *worker, from, to int, h
 	defer cs.mu.Unlock()
 	if hung == 3 {
 		cs.extra = append(cs.extra, ReplayFile{Property: p.ID, Seed: seed, RunIndex: idx, Kind: "hang",
-			Violation: Violation{Class: "hang", Msg: fmt.Sprintf("run %d exceeded the wall budget %v and 2x/4x/8x of it in three fresh processes", idx, hang)}})
+			Violation: Violation{Class: "hang", Msg: fmt.Sprintf("run %d exceeded the wall budget %v, and 1x/2x/4x of it in three fresh processes", idx, hang)}})
 	} else {
 		cs.harness = append(cs.harness, fmt.Sprintf("run %d exceeded wall budget once but not reproducibly (%d/3): environment", idx, hung))
 	}
